@@ -116,7 +116,7 @@ QUICK_PLANS = [
     ("1req", dict(maxreqs=1, first="MCAll", later="MCMicroN", disp="MCDispAll", held=0, cuts="FALSE", ns="{1}",
                   badargs="TRUE", sample=3)),
     ("2req", dict(maxreqs=2, first="MCTinyS", later="MCMicro", disp="MCDispMicro", held=1, cuts="TRUE",
-                  rets='{"F", "1"}', ns="{1}", routes='{"direct"}', badargs="TRUE", sample=3)),
+                  rets='{"F", "1"}', ns="{1}", routes='{"direct"}', badargs="TRUE", sample=4)),
     # small and exhaustive (one shard): will-close replies x mid-body faults, HTTP/1.0, 204, and HEAD requests with
     # Content-Length / chunked / close-delimited headers, on the streaming modes, crossed with every disposal
     ("edge", EDGE),
